@@ -110,16 +110,23 @@ class LocationPath(BaseASTNode):
         if old.issuperset(new): return intermediate
 
         def traverse(node, stack):
-            if node in visited: return
+            if node in visited:
+                # Already fully explored. It is on a path to 'new' iff it was
+                # recorded as such.
+                if (node in new) or (node in intermediate):
+                    intermediate.update(stack)
+                return
 
             if node in new:
                 intermediate.update(stack)
-            else:
-                stack = stack + [node]
-                for i in node.values():
-                    if queryIndirect or i.direct:
-                        traverse(i.node, stack)
-                visited.add(node)
+
+            # Descend further even below a matched node. There might be more
+            # matches that are only reachable through this one.
+            stack = stack + [node]
+            for i in node.values():
+                if queryIndirect or i.direct:
+                    traverse(i.node, stack)
+            visited.add(node)
 
         for n in old: traverse(n, [])
 
